@@ -119,6 +119,8 @@ impl ZoneStore {
         // Check persistent store
         if let Some(packet) = self.store.get(pubkey).await? {
             trace!(packet_timestamp = ?packet.timestamp(), "store hit");
+            #[cfg(feature = "verif-hooks")]
+            crate::verif_hooks::pause("zonestore.resolve.after_store_get");
             let mut cache = self.cache.lock().await;
             let result = cache.insert_and_resolve(&packet, name, record_type);
             return match result {
@@ -182,12 +184,33 @@ impl ZoneStore {
         let pubkey = PublicKeyBytes::from_signed_packet(&signed_packet);
         if self.store.upsert(signed_packet).await? {
             self.metrics.pkarr_publish_update.inc();
+            #[cfg(feature = "verif-hooks")]
+            crate::verif_hooks::pause("zonestore.insert.after_upsert");
             self.cache.lock().await.remove(&pubkey);
             Ok(true)
         } else {
             self.metrics.pkarr_publish_noop.inc();
             Ok(false)
         }
+    }
+}
+
+#[cfg(feature = "verif-hooks")]
+impl ZoneStore {
+    /// Builds a zone store on a caller-supplied redb database (what `persistent` does
+    /// after opening the file).
+    pub(crate) fn verif_from_db(
+        db: redb::Database,
+        options: Options,
+        metrics: Arc<Metrics>,
+    ) -> Result<Self> {
+        let packet_store = SignedPacketStore::open(db, options, metrics.clone())?;
+        Ok(Self::new(packet_store, metrics))
+    }
+
+    /// Dumps both tables of a packet database (see `signed_packets::verif_dump`).
+    pub(crate) fn verif_dump(db: &redb::Database) -> Result<signed_packets::VerifDump> {
+        signed_packets::verif_dump(db)
     }
 }
 
